@@ -1,7 +1,7 @@
 // Run from the worktree root (/tmp/audit/C14):
 //
 //	export PATH=/opt/veriftools/go1.26.8/bin:$PATH GOTOOLCHAIN=local GOFLAGS=-mod=mod GOPROXY=off GOSUMDB=off
-//	go test ./AUDIT/demo/barrier_reparked/ -run TestSecondBarrierReleasedEarly -count=1
+//	go test ./c19demo/barrier_reparked/ -run TestSecondBarrierReleasedEarly -count=1
 //
 // Same defect as barrier_reparked_test.go (a wavefront released from a barrier
 // by an ending sibling is parked again in the same cycle), seen through the
